@@ -42,3 +42,42 @@ Proof.
   destruct (list_eqb s (bs "binary")) eqn:E5; [apply HeadersProofs.list_eqb_eq in E5; injection H as <-; exact E5|].
   discriminate.
 Qed.
+
+(* ---------- Content-Disposition read back: for EVERY file name (any octets: quotes, semicolons, the text
+   SP filename= DQUOTE itself, CR LF ...) the raw value with_name stores is parsed back to the same kind and name ---------- *)
+Lemma split_once_char_prefix c k r : forallb (fun x => negb (x =? c)) k = true ->
+  split_once_char c (k ++ c :: r) = Some (k, r).
+Proof.
+  induction k as [|x k IH]; intros H; cbn [app split_once_char].
+  - rewrite N.eqb_refl. reflexivity.
+  - cbn in H. apply andb_prop in H. destruct H as [Hx Hk]. apply negb_true_iff in Hx. rewrite Hx, (IH Hk). reflexivity.
+Qed.
+Lemma starts_with_app p r : starts_with p (p ++ r) = true.
+Proof. induction p as [|x p IH]; [destruct r; reflexivity|]. cbn. rewrite N.eqb_refl. exact IH. Qed.
+Lemma skipn_app_len {A} (p r : list A) : skipn (length p) (p ++ r) = r.
+Proof. induction p; [reflexivity|assumption]. Qed.
+Lemma split_once_str_prefix p r : split_once_str p (p ++ r) = Some ([], r).
+Proof.
+  destruct p as [|x p]; [destruct r; reflexivity|].
+  cbn [app split_once_str]. change (starts_with (x :: p) (x :: p ++ r)) with (starts_with (x :: p) ((x :: p) ++ r)).
+  rewrite starts_with_app. change (x :: p ++ r) with ((x :: p) ++ r). rewrite skipn_app_len. reflexivity.
+Qed.
+Lemma strip_suffix_char_app c l : strip_suffix_char c (l ++ [c]) = Some l.
+Proof. unfold strip_suffix_char. rewrite rev_app_distr. cbn. rewrite N.eqb_refl, rev_involutive. reflexivity. Qed.
+
+Theorem content_disposition_readback kind fname : kind = bs "inline" \/ kind = bs "attachment" ->
+  cd_parse (cd_raw kind fname) = Some (kind, Some fname).
+Proof.
+  intros [->| ->]; unfold cd_parse, cd_raw.
+  - replace (list_eqb (bs "inline" ++ bs ";" ++ FILENAME_EQ ++ fname ++ [34]) (bs "inline")) with false by reflexivity.
+    change (bs "inline" ++ bs ";" ++ FILENAME_EQ ++ fname ++ [34]) with (bs "inline" ++ 59 :: (FILENAME_EQ ++ fname ++ [34])).
+    rewrite split_once_char_prefix by reflexivity. cbn [orb]. replace (list_eqb (bs "inline") (bs "inline")) with true by reflexivity. cbn [orb].
+    rewrite split_once_str_prefix, strip_suffix_char_app. reflexivity.
+  - replace (list_eqb (bs "attachment" ++ bs ";" ++ FILENAME_EQ ++ fname ++ [34]) (bs "inline")) with false by reflexivity.
+    change (bs "attachment" ++ bs ";" ++ FILENAME_EQ ++ fname ++ [34]) with (bs "attachment" ++ 59 :: (FILENAME_EQ ++ fname ++ [34])).
+    rewrite split_once_char_prefix by reflexivity.
+    replace (list_eqb (bs "attachment") (bs "inline") || list_eqb (bs "attachment") (bs "attachment")) with true by reflexivity.
+    rewrite split_once_str_prefix, strip_suffix_char_app. reflexivity.
+Qed.
+Theorem content_disposition_inline : cd_parse (bs "inline") = Some (bs "inline", None).
+Proof. reflexivity. Qed.
